@@ -139,6 +139,7 @@ def wellformed(c, E: Env, functional=True):
         # well-behaved settings: a legal direction, no abnormal scan (unknown class under ERROR, raising filter)
         c.requires(And(E.d >= 0, E.d <= 2), "direction-in-range")
         c.assume_inv(Schema("no-abnormal-scan", (Ref,), lambda x: Implies(ct.is_a(x, "Vertex"), Not(NB_bad(S, x, E.d, E.u, E.fv)))))
+        c.requires(T.opt_cb_ok(E.fr), "ff_result-is-None-or-truthy")
         c.assume_inv(Schema("ff_result-does-not-raise", (Ref,), lambda x: Not(T.cb1_raises(E.fr, x))))
         c.assume_inv(Schema("neighbours-are-vertices", (Ref, Ref), lambda x, w: Implies(
             And(ct.is_a(x, "Vertex"), Mem(E.N(x), w)), And(w != NONE, ct.is_a(w, "Vertex"))), pair_from=("NBf@",)))
